@@ -12,7 +12,7 @@
    Version / revision arguments range over ALL strings, data-rate indices over all of Z. *)
 From Coq Require Import List ZArith Bool String.
 From LW Require Import Base.Outcome Band.Types Band.Lookup Band.Regional Band.Rx1Spec Band.TablesSpec
-     Band.Rx1Checks Band.Rx1BaseProofs Band.TablesChecks Band.TablesProofs.
+     Band.Rx1Checks Band.Rx1BaseProofs Band.TablesChecks Band.TablesProofs Band.AddChannelProofs.
 From LWGen Require Import BandGen KnownGen.
 Import ListNotations.
 Open Scope Z_scope.
@@ -32,6 +32,22 @@ Theorem C13_closure_channels : forall c, In c band_configs ->
       forall d, t_cfmin t <= d <= t_cfmax t -> dr_defined_up t d = true).
 Proof. exact closure. Qed.
 Print Assumptions C13_closure_channels.
+
+(* the enabled uplink data-rates of a band object after ANY history of
+   AddChannel(frequency, MinDR, MaxDR) calls are exactly the union of the DR ranges of its
+   uplink channels, strictly ascending; when every added range consists of defined uplink
+   data-rates, every data-rate handed out is a defined uplink data-rate (no index from a gap
+   between two ranges, e.g. IN865 DR6 between [0..5] and [7..7]) *)
+Theorem C13_enabled_drs_after_add_channels : forall c, In c band_configs ->
+  forall ops : list (Z * Z * Z),
+  let t' := fst (add_channels (c_tab c) ops) in
+  (forall d, In d (get_enabled_uplink_data_rates t') <->
+             exists ch, In ch (t_up t') /\ ch_min ch <= d <= ch_max ch)
+  /\ strictly_ascending (get_enabled_uplink_data_rates t') = true
+  /\ ((forall f mn mx, In (f, mn, mx) ops -> uplink_channel_closed (c_tab c) mn mx = true) ->
+      forall d, In d (get_enabled_uplink_data_rates t') -> dr_defined_up t' d = true).
+Proof. exact enabled_drs_after_add_channels. Qed.
+Print Assumptions C13_enabled_drs_after_add_channels.
 
 (* RX1 results (all integer arguments) - except the cells recorded under C12-3 / C13-3 *)
 Theorem C13_closure_rx1 : forall c, In c band_configs -> forall dr off r : Z,
@@ -80,6 +96,23 @@ Theorem C13_latest_total : forall c, In c band_configs -> forall dr,
   dr_defined (c_tab c) dr = true -> exists s, get_max_payload (c_tab c) latest latest dr = Ok s.
 Proof. exact latest_total. Qed.
 Print Assumptions C13_latest_total.
+
+(* every (version, revision) combination resolves - ALL strings, known or not: some size
+   table is selected, and every data-rate the region lists since its first release
+   ([must_have_size]: defined, not LR-FHSS, not CN470 DR6/7, not AU915 DR5/6) has a size.
+   A version-level map without a "latest" entry would break this for every revision string
+   that is not one of its keys. *)
+Theorem C13_every_revision_resolves : forall c, In c band_configs -> forall ver rev : string,
+  exists st, select_size_table (c_tab c) ver rev = Some st.
+Proof. exact every_revision_resolves. Qed.
+Print Assumptions C13_every_revision_resolves.
+
+Theorem C13_every_revision_total : forall c, In c band_configs ->
+  forall reg, region_of (c_name c) = Some reg -> forall (ver rev : string) (dr : Z),
+  must_have_size reg (t_drs (c_tab c)) dr = true ->
+  exists s, get_max_payload (c_tab c) ver rev dr = Ok s.
+Proof. exact every_revision_total. Qed.
+Print Assumptions C13_every_revision_total.
 
 (* unknown version / revision strings resolve to the latest table - any tables, any strings *)
 Theorem C13_unknown_version_is_latest : forall t ver rev dr,
@@ -180,7 +213,11 @@ Example C13_example :
                 /\ get_max_payload (c_tab c) "no such version" "nor revision" 3 = Ok (123, 115)
                 /\ get_max_payload (c_tab c) "1.0.2" "B" 12 = Err
                 /\ get_data_rate_index (c_tab c) true (lora false false 7 250) = Ok 6
-                /\ dr_defined (c_tab c) 11 = true).
+                /\ dr_defined (c_tab c) 11 = true
+                /\ must_have_size REU868 (t_drs (c_tab c)) 7 = true
+                /\ must_have_size REU868 (t_drs (c_tab c)) 8 = false
+                /\ get_enabled_uplink_data_rates (fst (add_channels (c_tab c) [(867100000, 7, 7)]))
+                   = [0; 1; 2; 3; 4; 5; 7]).
 Proof.
   assert (L : List.length band_configs = 56%nat) by (vm_compute; reflexivity).
   pose (d := mkCfg "" false false KEU868 false 0 "" (mkDefaults 0 0 0 0 0 0) (mkTables false 0 0 [] [] [] [] [] [])).
